@@ -166,7 +166,7 @@ class DirectoryRecord:
                  'file_unit_size', 'interleave_gap_size', 'len_fi', 'isdir',
                  'orig_extent_loc', 'data_length', 'seqnum', 'is_root',
                  'parent', 'rock_ridge', 'xa_record', 'file_ident',
-                 'orig_record_pos')
+                 'orig_record_pos', 'su_raw')
 
     FILE_FLAG_EXISTENCE_BIT = 0
     FILE_FLAG_DIRECTORY_BIT = 1
@@ -190,6 +190,7 @@ class DirectoryRecord:
         self.index_in_parent = -1
         self.is_rr_moved_dir = False
         self.orig_record_pos = -1
+        self.su_raw = b''
         self.is_root = False
         self.isdir = False
         self.rock_ridge = None  # type: Optional[rockridge.RockRidge]
@@ -322,6 +323,13 @@ class DirectoryRecord:
                                       bytes_to_skip,
                                       False,
                                       self._printable_name)
+            else:
+                # System use bytes that are neither an XA record nor Rock
+                # Ridge.  They are part of the length of the record, so they
+                # have to be written again with it.
+                self.su_raw = record[record_offset:self.dr_len]
+                if not self.su_raw.strip(b'\x00'):
+                    self.su_raw = b''
 
         if self.xattr_len != 0:
             if self.file_flags & (1 << self.FILE_FLAG_RECORD_BIT):
@@ -1145,7 +1153,7 @@ class DirectoryRecord:
                                self.date.record(), self.file_flags,
                                self.file_unit_size, self.interleave_gap_size,
                                self.seqnum, utils.swab_16bit(self.seqnum),
-                               self.len_fi) + self.file_ident + padstr + xa_rec + rr_rec]
+                               self.len_fi) + self.file_ident + padstr + xa_rec + rr_rec + self.su_raw]
 
         outlist.append(b'\x00' * (len(outlist[0]) % 2))
 
